@@ -447,7 +447,11 @@ func (g *gen) discharge(base string, opt dischargeOpts) []result {
 					if (s.name == "cvc5" && hasLambda) || s.name == r.solver || s.name == "z3-new-r0" || (r.solver == "z3-new-r0" && s.name == "z3-new") {
 						continue
 					}
-					st2, _ := runSolver(s, file, opt.timeout)
+					ct := opt.timeout
+					if ct > 20 {
+						ct = 20 // the cross-check is a sanity check of the answer, not a second proof attempt
+					}
+					st2, _ := runSolver(s, file, ct)
 					if st2 == "sat" {
 						r.status = "solver-disagreement"
 					}
